@@ -53,15 +53,27 @@ pub fn timing_case(rng: &mut Rng) -> String {
             base = time.max(base) + 250.0 * (rng.below(3) as f64);
         }
         let uninh = rng.chance(1, 2);
-        let nan = !uninh && rng.chance(1, 12);
-        let beat = if nan { f64::NAN } else { pick_beat(rng, uninh) };
+        // special tokens on inherited lines: NaN in every spelling `str::parse::<f64>` accepts (a
+        // leading minus sets the sign bit of the NaN), and the two zeros
+        let special = if !uninh && rng.chance(1, 8) {
+            Some(*rng.pick(&["NaN", "nan", "-NaN", "-nan", "+NaN", "-0", "0", "-0.0", "NaN"]))
+        } else {
+            None
+        };
+        let beat = match special {
+            Some(tok) => tok.parse::<f64>().expect("parsable special token"),
+            None => pick_beat(rng, uninh),
+        };
         let kiai = rng.chance(1, 3);
-        let beat_s = if nan { "NaN".to_string() } else { format!("{beat}") };
+        let beat_s = match special {
+            Some(tok) => tok.to_string(),
+            None => format!("{beat}"),
+        };
         writeln!(text, "{time},{beat_s},4,2,0,60,{},{}", u8::from(uninh), u8::from(kiai)).unwrap();
         lines.push(format!(
             "[{},{},{},{}]",
             time.to_bits(),
-            if nan { f64::NAN.to_bits() } else { beat.to_bits() },
+            beat.to_bits(),
             uninh,
             kiai
         ));
@@ -247,7 +259,7 @@ pub fn invariants(map: &Beatmap, converted_from: Option<&Beatmap>) -> Vec<String
 fn corrupt(rng: &mut Rng, text: &str) -> Vec<u8> {
     let mut lines: Vec<String> = text.lines().map(str::to_string).collect();
     let limits = [
-        "2147483647", "-2147483648", "2147483648", "1e308", "-1e308", "1e999", "NaN", "nan", "inf", "-inf", "Infinity",
+        "2147483647", "-2147483648", "2147483648", "1e308", "-1e308", "1e999", "NaN", "nan", "-NaN", "-nan", "+nan", "inf", "-inf", "+inf", "Infinity",
         "0x10", "", " ", "1e-320", "131072", "-131072", "9999999999999999999999", "1,1", "-0", "+5", "5.", ".5",
     ];
     for _ in 0..1 + rng.below(6) {
